@@ -861,8 +861,14 @@ func replayMain(path string) int {
 		return 2
 	}
 	tries := 1
-	if p.ID() == "C11" {
-		tries = 20 // see DESIGN §9: map iteration order has no seam
+	switch p.ID() {
+	case "C11":
+		tries = 20 // DESIGN §9: allocator reuse and map iteration order have no seam
+	case "C06", "C07", "C08":
+		// these checks read through the real sync.Pool of banks (only C10 and
+		// C12 own the pool): a violation that is really a bank-recycling
+		// defect may need more than one attempt here; C10 replays exactly.
+		tries = 5
 	}
 	for i := 0; i < tries; i++ {
 		c, err := startChild(p, childOpts{})
